@@ -1,4 +1,5 @@
 import Revm.Proofs.BundleInvExtend
+import Revm.Proofs.BundleRevExtend
 /-! C18 — splitting and joining bundles does not change what they describe.
 
 Full statement: `Spec.Bundle.ExtendStatement` (extend of a split history ≙ monolithic bundle: same
@@ -14,8 +15,13 @@ PROVED in the explicit decidable region outside finding F4: `extend_assoc_partia
 `extendOk` the pre-value half is false of the code (F4, `extend_prevalue_counterexample`:
 `entry(key).or_insert(..)` keeps the `Destroyed` marker instead of A's present value), so `FullStatement`
 itself is not provable.
-Outside the statement (not about what `extend` describes, but about `revert` afterwards): F5 — reverts of the
-second half carry `previous_status` of another cache lineage; F3 (see C16) — second half built after
+`revert` after `extend` (not part of `ExtendStatement`): F5 — the reverts of the second half carry
+`previous_status` of another cache lineage, so an account that A holds with a destroyed status loses its wipe when a
+revert of B is applied (`extend_revert_counterexample`). PROVED in the explicit decidable region outside F5:
+`extend_revert_partial` — `revert(j)` on `extend(A, B)` leaves a bundle whose changeset (both flags), applied to A's
+pre-state, gives the reference state after B's first n-j groups, whenever `Spec.Bundle.extRevertOk A B j`: j within
+B's blocks, no storage-wiping revert among the reverted blocks, no account that A holds with a destroyed status
+present in B. F5's split is outside the region (`f5_outside_region`). F3 (see C16) — second half built after
 `take_bundle` on a continuing `State` (excluded by "fresh State").
 Also proved: `take_n_reverts` is `List.splitAt` (and `take_all_reverts` its `n > len` case),
 `prepend_state` / `extend_state` never override values of the newer bundle and keep older-only addresses.
@@ -36,6 +42,14 @@ state committed so far), both `OriginalValuesKnown` settings: `extend(A, B)`'s c
 pre-state of A is the post-state of B; nothing panics -/
 theorem extend_post_state : FullStatementPostState := extend_post_proof
 
+/-- post-state of `prepend_state` -/
+def FullStatementPrependPostState : Prop := PrependPostStatement
+
+/-- **C18, `prepend_state`, post-state**: same quantification as `extend_post_state`; `B.prepend_state(A)` for the
+newer bundle B (second half) and the older A: its changeset applied to the pre-state of A is the post-state of B
+(`extend_state` without the revert rewriting of `extend`), and its reverts are A's -/
+theorem prepend_post_state : FullStatementPrependPostState := prepend_post_proof
+
 /-- **C18, whole statement outside F4**: the post-state as above and, when no storage-wiping revert of B
 lists as `Destroyed` a slot held by A's account (`extendOk`, decidable), every block of the extended
 bundle's plain reverts maps the reference state after its group to the one before it. Missing for
@@ -52,6 +66,20 @@ theorem extend_assoc_partial (db db2 : BMap Info) (sc : Bool) (p0 : Plain) (h1 h
               ((p0 :: (l1 ++ l2).map (·.2))[k]? = some before) → (((l1 ++ l2).map (·.2))[k]? = some after) →
               PlainEq (applyRevertBlock true p0 blk after) before) :=
   extend_partial_proof db db2 sc p0 h1 h2 known hdb hwf hr
+
+/-- **C18, `revert` after `extend`, region outside F5**: for the same split histories, `revert(j)` on the extended
+bundle describes, relative to A's pre-state, the reference state after the first n-j groups of the second half.
+Missing outside `extRevertOk`: reverting into A's blocks, storage-wiping reverts (F2), and accounts destroyed in A
+and present in B, where it is false of the code (F5 below). -/
+theorem extend_revert_partial (db db2 : BMap Info) (sc : Bool) (p0 : Plain) (h1 h2 : List Group) (j : Nat) (known : Bool)
+    (hdb : dbMatches db p0) (hwf : plainWF p0) (hr : reachHistory sc p0 (h1 ++ h2) = true) :
+    ∃ l1 l2, runHistory { db := db, sc := sc } p0 h1 = some l1 ∧
+      ∀ s1 r1, l1.getLast? = some (s1, r1) → dbMatches db2 r1 →
+        runHistory { db := db2, sc := sc } r1 h2 = some l2 ∧
+        ∀ s2 r2, l2.getLast? = some (s2, r2) → extRevertOk s1.bundle s2.bundle j = true →
+          ∀ tgt, (r1 :: l2.map (·.2))[h2.length - j]? = some tgt →
+            PlainEq (applyChangeset (toPlainState (revertN (extend s1.bundle s2.bundle) j) known) p0) tgt :=
+  extend_revert_proof db db2 sc p0 h1 h2 j known hdb hwf hr
 
 /-- the region is non-trivial: bundle A writes slot 2 of contract 2, bundle B destroys and re-creates the
 contract writing slot 1 (a wiping revert with a `Destroyed` slot): `extendOk`, and the extended bundle's
@@ -148,6 +176,17 @@ theorem extend_revert_counterexample :
       ((applyChangeset (toPlainState (revertN (extend a b) 1) true) Wit.f5p0).slot 5 3, r1.slot 5 3)) = some (7, 0) ∧
     (Wit.runLast { db := Wit.f5db, sc := true } Wit.f5p0 (Wit.f5h1 ++ Wit.f5h2)).map (fun r =>
       (applyChangeset (toPlainState (revertN r.1.bundle 1) true) Wit.f5p0).slot 5 3) = some 0 := by
+  decide
+
+/-- F5's split is outside the region `extRevertOk` in which `revert` after `extend` is claimed (contract 5 is held
+with status `Destroyed` by bundle A and re-created in bundle B); a split without destruction is inside -/
+theorem f5_outside_region :
+    (Wit.split Wit.f5db [] Wit.f5p0 Wit.f5h1 Wit.f5h2).map (fun (a, b, _, _) => extRevertOk a b 1) = some false ∧
+    (Wit.split Wit.f4db [(2, ⟨3, 1, 1, false⟩)] Wit.f4p0 Wit.f4h1
+        [[[(2, Wit.ea 3 1 1 false false [(1, ⟨7, 9⟩)])]]]).map (fun (a, b, r1, _) =>
+      (extRevertOk a b 1, (applyChangeset (toPlainState (revertN (extend a b) 1) true) Wit.f4p0).slot 2 1,
+       (applyChangeset (toPlainState (revertN (extend a b) 1) false) Wit.f4p0).slot 2 1, r1.slot 2 1)) =
+      some (true, 7, 7, 7) := by
   decide
 
 end Revm.Props.C18
